@@ -2,7 +2,7 @@
 import time, os
 from vlib import term as T, mirsmt as M, specs as SP
 from vlib.term import C, TRUE, FALSE
-from vlib.mirsmt import I, B, Path, Panic
+from vlib.mirsmt import I, B, E, S, Path, Panic
 from props import c02
 
 ID = 'C06'
@@ -82,10 +82,101 @@ def fees_task(ctx):
                 {'obligation': tw.key, 'verdict': 'sat (as required)', 'native': info})
 
 
+def update_after_swap_task(ctx):
+    """Whirlpool::update_after_swap adds the swap's protocol fee to the owed amount of the INPUT token and stores the new growth on that side only"""
+    from vlib import handler as H
+    obls = []
+    for fee_in_a in (True, False):
+        T.reset() if fee_in_a else None
+        e = M.Engine(ctx.mir())
+        H.install(e)
+        pre = e.havoc.value('Whirlpool', 'wpA' if fee_in_a else 'wpB')
+        fr0 = M.Frame(None); fr0.loc = {'_900': pre}      # the callee writes through this reference; one run per flag value, so no fork shares it
+        sfx = 'a' if fee_in_a else 'b'
+        liq = T.var('n_liq_' + sfx, 0, 2**128 - 1); tick = T.var('n_tick_' + sfx, -(2**31), 2**31 - 1); sp = T.var('n_price_' + sfx, 0, 2**128 - 1)
+        fgg = T.var('n_fgg_' + sfx, 0, 2**128 - 1); pfee = T.var('n_pfee_' + sfx, 0, 2**64 - 1); ts = T.var('n_ts_' + sfx, 0, 2**64 - 1)
+        args = [M.Ref(fr0, '_900'), I(liq, 'u128'), I(tick, 'i32'), I(sp, 'u128'), I(fgg, 'u128'), M.Opaque('reward_infos'), I(pfee, 'u64'),
+                B(TRUE if fee_in_a else FALSE), I(ts, 'u64')]
+        outs = list(e.run('Whirlpool::update_after_swap', args, Path()))
+        tag = f'update_after_swap:fee_in_{sfx}'
+        if len(outs) != 1 or isinstance(outs[0][1], Panic):
+            o = M.Obligation(f'{tag}:single_path_no_panic', [], FALSE, note=str(outs)[:200]); o.replay = None; obls.append(o); continue
+        p = outs[0][0]
+        post = fr0.loc['_900']
+        g = lambda st, f: st.get(f).t
+        W = C(1 << 64)
+        mine, other = ('a', 'b') if fee_in_a else ('b', 'a')
+        goal = T.and_(
+            T.cmp('=', g(post, 'liquidity'), liq), T.cmp('=', g(post, 'tick_current_index'), tick), T.cmp('=', g(post, 'sqrt_price'), sp),
+            T.cmp('=', g(post, 'protocol_fee_owed_' + mine), T.mod(T.add(g(pre, 'protocol_fee_owed_' + mine), pfee), W)),
+            T.cmp('=', g(post, 'fee_growth_global_' + mine), fgg),
+            T.cmp('=', g(post, 'protocol_fee_owed_' + other), g(pre, 'protocol_fee_owed_' + other)),
+            T.cmp('=', g(post, 'fee_growth_global_' + other), g(pre, 'fee_growth_global_' + other)))
+        o = M.Obligation(f'{tag}:fee_added_to_input_side_only', p.pc, goal); o.replay = None; obls.append(o)
+        for f in ('fee_rate', 'protocol_fee_rate', 'tick_spacing', 'token_mint_a', 'token_mint_b', 'token_vault_a', 'token_vault_b', 'whirlpools_config'):
+            o = M.Obligation(f'{tag}:{f}_untouched', p.pc, T.cmp('=', g(post, f), g(pre, f))); o.replay = None; obls.append(o)
+        ctx.functions.update(e.executed)
+    ctx.discharge(obls)
+
+
+def collect_protocol_fees_task(v2):
+    """collect_protocol_fees(_v2) handler: pays exactly protocol_fee_owed_a / _b from the pool's vaults and resets both to zero"""
+    def task(ctx):
+        from vlib import handler as H
+        from props import c17
+        fn = 'instructions::v2::collect_protocol_fees::handler' if v2 else 'instructions::collect_protocol_fees::handler'
+        st = 'CollectProtocolFeesV2' if v2 else 'CollectProtocolFees'
+        tag = 'collect_protocol_fees_v2' if v2 else 'collect_protocol_fees'
+        pre = {}
+        def scalars(T_):
+            return [M.Opaque('remaining_accounts_info')] if v2 else []
+        T.reset()
+        e = M.Engine(ctx.mir(), prune_ms=3000, max_steps=40000)
+        H.install(e, record=c17.RECORD + [r'transfer_from_vault_to_owner(_v2)?$'])
+        ctxv, accts, fr0 = c17.build_ctx(e, st, e.havoc)
+        wp0 = c17.acct(accts, 'whirlpool').data
+        owed_a, owed_b = wp0.get('protocol_fee_owed_a').t, wp0.get('protocol_fee_owed_b').t
+        obls = []
+        n_ok = 0
+        wcell = c17.acct(accts, 'whirlpool')
+        for i, (p, r) in enumerate(e.run(fn, [ctxv] + scalars(T), Path())):
+            if isinstance(r, Panic):
+                o = M.Obligation(f'{tag}:path{i}:no_panic', p.pc, FALSE, note=r.msg); o.replay = None; obls.append(o); continue
+            if not (isinstance(r, E) and r.var == 'Ok'): continue
+            n_ok += 1
+            tr = c17.calls(p, r'transfer_from_vault_to_owner(_v2)?$')
+            amts = []
+            for ev in tr:
+                xs = [H.snapshot(e, x) for x in ev[2]]
+                ints = [x for x in xs if isinstance(x, I) and x.ty == 'u64']
+                accs = [x.name for x in xs if isinstance(x, H.Acct)]
+                amts.append((ints[-1].t if ints else None, accs))
+            ok_shape = len(amts) == 2 and all(a is not None for a, _ in amts)
+            o = M.Obligation(f'{tag}:path{i}:two_payouts', p.pc, TRUE if ok_shape else FALSE, note=str([x[1] for x in amts])); o.replay = None; obls.append(o)
+            if not ok_shape: continue
+            o = M.Obligation(f'{tag}:path{i}:pays_exactly_owed', p.pc, T.and_(T.cmp('=', amts[0][0], owed_a), T.cmp('=', amts[1][0], owed_b)),
+                             note='transfer amounts equal protocol_fee_owed_a / _b of the pre-state'); o.replay = None; obls.append(o)
+            va, vb = ('token_vault_a' in amts[0][1] and 'token_destination_a' in amts[0][1]), ('token_vault_b' in amts[1][1] and 'token_destination_b' in amts[1][1])
+            o = M.Obligation(f'{tag}:path{i}:from_pool_vaults_to_destinations', p.pc, TRUE if (va and vb) else FALSE, note=str([x[1] for x in amts])); o.replay = None; obls.append(o)
+        # the all-Ok path is explored last and runs on the original account cells: read the pool's final state from them
+        if n_ok == 1:
+            post = wcell.data
+            o = M.Obligation(f'{tag}:owed_reset_to_zero', [], T.and_(T.cmp('=', post.get('protocol_fee_owed_a').t, C(0)), T.cmp('=', post.get('protocol_fee_owed_b').t, C(0))),
+                             note='after a successful collection both owed amounts are zero'); o.replay = None; obls.append(o)
+        ctx.extra[tag] = {'ok_paths': n_ok}
+        ctx.functions.update(e.executed)
+        ctx.add(f'M:{tag}:vacuity', 'M', 'discharged' if n_ok else 'fault', 0, f'{n_ok} successful paths', False)
+        ctx.discharge(obls)
+    return task
+
+
 def run(ctx):
     ctx.mir()
     keep = ('fee_formula', 'd_complete', 'f_no_wrap', 'a_direction')
     tasks = [('fees', fees_task)] + [(f"step:{'in' if ei else 'out'}:{'a2b' if ab else 'b2a'}", c02.step_task(ei, ab, keep))
                                      for ei in (True, False) for ab in (True, False)]
-    ctx.parallel(tasks, max_procs=5)
+    from props import c17
+    tasks += [('update_after_swap', update_after_swap_task), ('collect_protocol_fees', collect_protocol_fees_task(False)),
+              ('collect_protocol_fees_v2', collect_protocol_fees_task(True)), ('handler:single', c17.single_task(False))]
+    ctx.parallel(tasks, max_procs=8)
     ctx.run_kani(['c06.rs'])
